@@ -34,6 +34,10 @@ def r1(ctx):
                     assume(st, {ttl: 1}, eq=0)
                 else:
                     assume(st, {ttl: 1}, lo=1, hi=2**32 - 1)
+                # clock values and store times of the property's range (seconds since start): lets saturating/checked forms
+                # of the same sum fold to the plain one
+                assume(st, {ts: 1}, lo=0, hi=2**62)
+                assume(st, {now: 1}, lo=0, hi=2**62)
                 L = {ts: 1, ttl: 1, now: -1}
                 if sign == "<":
                     assume(st, L, hi=-1)
